@@ -4,6 +4,7 @@ package l2
 
 import (
 	"encoding/json"
+	"sort"
 	"strings"
 	"testing"
 	"time"
@@ -30,11 +31,57 @@ func cloneDesc(d *Desc) *Desc {
 		if x.Len == nil {
 			x.Len = map[int]int{}
 		}
-		if x.Colls == nil {
-			x.Colls = map[int]*CollD{}
-		}
+		fixMaps(x)
 	}
 	return &c
+}
+
+func fixMaps(x *ExecD) {
+	if x.TaskOut == nil {
+		x.TaskOut = map[int]int{}
+	}
+	if x.PredOut == nil {
+		x.PredOut = map[int]int{}
+	}
+	if x.Len == nil {
+		x.Len = map[int]int{}
+	}
+	if x.Colls == nil {
+		x.Colls = map[int]*CollD{}
+	}
+	for _, ch := range x.Nest {
+		fixMaps(ch)
+	}
+}
+
+// execPaths lists every execution of d (top level and nested) as a path:
+// index of the top-level execution followed by the task ids of the nesting.
+func execPaths(d *Desc) [][]int {
+	var out [][]int
+	var walk func(x *ExecD, path []int)
+	walk = func(x *ExecD, path []int) {
+		out = append(out, append([]int{}, path...))
+		var ids []int
+		for id := range x.Nest {
+			ids = append(ids, id)
+		}
+		sort.Ints(ids)
+		for _, id := range ids {
+			walk(x.Nest[id], append(path, id))
+		}
+	}
+	for i := range d.Execs {
+		walk(&d.Execs[i], []int{i})
+	}
+	return out
+}
+
+func execAt(d *Desc, path []int) *ExecD {
+	x := &d.Execs[path[0]]
+	for _, id := range path[1:] {
+		x = x.Nest[id]
+	}
+	return x
 }
 
 func classKey(c string) string {
@@ -92,23 +139,38 @@ func Minimise(t *testing.T, d *Desc, prop, class string, maxTrials int) (*Desc, 
 				best, progress = c, true
 			}
 		}
-		for e := 0; e < len(best.Execs); e++ {
+		for _, path := range execPaths(best) {
+			if len(path) < 2 || trials >= maxTrials {
+				continue
+			}
+			c := cloneDesc(best)
+			par := execAt(c, path[:len(path)-1])
+			if par == nil || par.Nest[path[len(path)-1]] == nil {
+				continue // an enclosing execution was already removed
+			}
+			delete(par.Nest, path[len(path)-1])
+			if _, ok := try(c); ok {
+				best, progress = c, true
+			}
+		}
+		for _, path := range execPaths(best) {
+			bx := execAt(best, path)
 			var muts []func(x *ExecD) bool
-			for id := range best.Execs[e].TaskOut {
+			for id := range bx.TaskOut {
 				id := id
 				muts = append(muts, func(x *ExecD) bool { delete(x.TaskOut, id); return true })
 			}
-			for id := range best.Execs[e].PredOut {
+			for id := range bx.PredOut {
 				id := id
 				muts = append(muts, func(x *ExecD) bool { delete(x.PredOut, id); return true })
 			}
-			for id, l := range best.Execs[e].Len {
+			for id, l := range bx.Len {
 				id := id
 				if l > 0 {
 					muts = append(muts, func(x *ExecD) bool { x.Len[id] = 0; return true })
 				}
 			}
-			for id, cd := range best.Execs[e].Colls {
+			for id, cd := range bx.Colls {
 				id := id
 				for ord := range cd.Fail {
 					ord := ord
@@ -136,7 +198,7 @@ func Minimise(t *testing.T, d *Desc, prop, class string, maxTrials int) (*Desc, 
 					break
 				}
 				c := cloneDesc(best)
-				if !m(&c.Execs[e]) {
+				if !m(execAt(c, path)) {
 					continue
 				}
 				if _, ok := try(c); ok {
